@@ -31,6 +31,7 @@ fn c20_families(tier: Tier) -> Vec<Family> {
             (Kind::Bools { d_num, .. }, Tier::Thorough) => *d_num == 0,
             (Kind::NumOneDeep | Kind::CmpOneDeep, _) => wide(&f.t),
             (Kind::Snapshot, _) => true,
+            (Kind::ConstOperand, _) => false,
         })
         .collect()
 }
